@@ -7,11 +7,11 @@ SPEC = {
     "thorough_budget_s": 900,
     "chunk": 15,
     "rule": (
-        "one case = one seeded history over {new from each template, open each sample (path / BytesIO / folder / foreign-writer re-zip), add_file (path|Path|BytesIO|short-read source|image; the same content repeatedly), del_part, image frames and other body/meta/style edits, merge_styles_from a sample, continue on a clone, save as zip (path|BytesIO|in place|pre-existing target with/without backup), reopen (restart)}; every zip written is read by an independent zipfile/lxml inspector: first entry 'mimetype', ZIP_STORED, content = document type; no duplicate entry names; manifest has '/' with the mimetype; every file other than mimetype and META-INF/manifest.xml listed exactly once; every listed path present (directories: prefix of some entry). Mismatches the same inspector already finds in the source package are baseline and not counted. Error faults as in C03 (fail-stop). distinct = distinct run digest. non-trivial = >= 1 successful save and (>= 1 edit or >= 1 reopen)."
+        "one case = one seeded history over {new from each template, open each sample (path / BytesIO / folder / foreign-writer re-zip), add_file (path|Path|BytesIO|short-read source|image; the same content repeatedly), del_part, image frames and other body/meta/style edits, merge_styles_from a sample (the same sample repeatedly), an extra part registered by hand (set_part + Manifest.add_full_path), continue on a clone, save as zip (path|BytesIO|in place|pre-existing target with/without backup; pretty or not), reopen (restart)}; every zip written is read by an independent zipfile/lxml inspector: first entry 'mimetype', ZIP_STORED, content = document type; no duplicate entry names; manifest has '/' with the mimetype; every file other than mimetype and META-INF/manifest.xml listed exactly once; every listed path present (directories: prefix of some entry). Mismatches the same inspector already finds in the source package are baseline and not counted. Error faults as in C03 (fail-stop). distinct = distinct run digest. non-trivial = >= 1 successful save and (>= 1 edit or >= 1 reopen)."
     ),
     "assumptions": [
         "the package inspector (engines/docsim.py inspect_odf_zip) is trusted",
-        "set_part of arbitrary new names is not part of the C04 history alphabet (the property lists add_file, del_part, templates, clone, merge) and is not generated here"
+        "beyond the alphabet the quantifier lists (add_file, del_part, templates, clone, merge, image frames) one more way of putting a file into a package is generated under the statement's 'whatever was done to a document': set_part of an extra part followed by Manifest.add_full_path for it (public API; the same name registered repeatedly, empty or given media type); set_part of a new name WITHOUT a manifest entry is the caller's omission and is not generated"
 ],
     "transition_measure": "distinct (op, source kind, history flags, packaging, target kind, sub-kind) tuples",
     "real_components": ["odfdo (all of it, from /repo/src)", "lxml", "zipfile", "the real file system under a per-run scratch directory on tmpfs"],
